@@ -438,7 +438,7 @@ def execute(sc, ctx) -> None:
     import resource
 
     nout = len(final_by_name)
-    for m in sorted({0, 1, 2, nout // 2 + 1, nout, nout + 1, nout + 3}):
+    for m in sorted({0, 1, 2, nout // 2 + 1, nout, nout + 1, nout + 3} if nout > 1 else {0, 1, 3}):
         point = f"E1@+{m}"
         mkp = mk_for(point)
         d = os.path.join(ctx.root, "crash")
